@@ -48,6 +48,7 @@ void cleanuppid()
 }
 
 char fnbuf[FMTQFN];
+char numbuf[FMT_ULONG];
 
 void respond(s) char *s; { if (substdio_putflush(subfdoutsmall,s,1) == -1) _exit(100); }
 
@@ -79,6 +80,9 @@ int main(void)
      if ((unsigned char) (line.s[i] - '0') > 9) break;
    if (i < line.len - 1) { respond("x"); continue; }
    if (!scan_ulong(line.s + 5,&id)) { respond("x"); continue; }
+   /* scan_ulong wraps around: accept only the canonical spelling of id */
+   if (fmt_ulong(numbuf,id) != line.len - 6) { respond("x"); continue; }
+   if (!byte_equal(numbuf,line.len - 6,line.s + 5)) { respond("x"); continue; }
    if (byte_equal(line.s,5,"foop/"))
     {
 #define U(prefix,flag) fmtqfn(fnbuf,prefix,id,flag); \
